@@ -202,7 +202,7 @@ def make_case(i, rng, tier):
     if i < npool:
         t = tg[i // len(V.POOL)]
         name, fac, _ = V.POOL[i % len(V.POOL)]
-        return {"target": t, "src": name, "fac": fac}
+        return {"target": t, "src": name, "fac": fac, "collect": i % 5 == 4}
     if rng.random() < 0.02:
         order = rng.sample(["fn_kwargs", "cls", "cls2", "fn_plain"], rng.choice([2, 3, 4]))
         if "fn_kwargs" not in order:
@@ -217,7 +217,7 @@ def make_case(i, rng, tier):
         r2.setstate(st)
         return gen_source(r2)
 
-    return {"target": t, "src": "gen", "fac": fac}
+    return {"target": t, "src": "gen", "fac": fac, "collect": rng.random() < 0.2}
 
 
 # ---- equality / classification -----------------------------------------------------------------
@@ -470,7 +470,8 @@ def run_case(case, ctx):
             ctx.count("input_factory_failed")
             return
         vals[fname] = v
-        opts = Options(**fl)
+        # (error collection changes reporting only: the promises of the flags hold with it as without it)
+        opts = Options(**dict(fl, collect_errors=True)) if case.get("collect") else Options(**fl)
         if group == "rule:schema":
             # runtime options reach a data class through __from__ (a class keeps its own options under type_transform)
             thunk = lambda: t.__from__(v, options=opts)
